@@ -214,12 +214,34 @@ Inductive op :=
 | Transfer (o : nat) (eofx : bool)
 | CrashT (o : nat) (eofx : bool) (j : nat)     (* transfer killed after j write steps *)
 | Cut (j : nat)                               (* cache file cut to j bytes, mtime kept (the offset sweep) *)
-| Reader (o : nat) (eofx eofx' : bool) (j : nat).
+| Reader (o : nat) (eofx eofx' : bool) (j : nat)
+| Two (oa ob : nat) (ea eb : bool) (lastb : bool)
+       (* two transfers A, B that BOTH finish load_model on the same state before either goes on
+          (handler, compile, save in any interleaving of whole steps); lastb: B's save is the later one.
+          Outputs: A, B. *)
+| Reader2 (o : nat) (eofx ea eb : bool) (j : nat).
+       (* Reader with two such readers (same options) at write step j.  Outputs: A, B, writer. *)
        (* a writer transfer has done j write steps when a second transfer (same options) runs to
           completion in the same folder; then the writer finishes.  Outputs: reader, writer. *)
 
 Definition set_cfile (w : world) (c : option (list byte * nat)) : world :=
   W (src w) (smt w) (clock w) (ver w) c.
+
+(* what one caller decides from the state it loaded: its outcome, and whether it saves *)
+Definition decide (t : tables) (w : world) (o : nat) (e : bool) : outcome * bool :=
+  match load_model t w o e with
+  | inr m => (Loaded m, false)
+  | inl x => if transfer_recompiles t x then (Recompiled (src w, o), true) else (Raised x, false)
+  end.
+Definition two (t : tables) (w : world) (oa ob : nat) (ea eb lastb : bool) : world * list outcome :=
+  let (ra, wa) := decide t w oa ea in
+  let (rb, wb) := decide t w ob eb in
+  (match wa, wb with
+   | true, true => if lastb then full_write w ob else full_write w oa
+   | true, false => full_write w oa
+   | false, true => full_write w ob
+   | false, false => w
+   end, [ra; rb]).
 
 Definition step_op (t : tables) (w : world) (p : op) : world * list outcome :=
   match p with
@@ -238,6 +260,16 @@ Definition step_op (t : tables) (w : world) (p : op) : world * list outcome :=
             let (_, r) := transfer t (partial_write w o j) o e' in
             (full_write w o, [r; Recompiled (src w, o)])
           else let (w', r) := transfer t w o e' in (w', [r; Raised x])
+      end
+  | Two oa ob ea eb lastb => two t w oa ob ea eb lastb
+  | Reader2 o e ea eb j =>
+      match load_model t w o e with
+      | inr m => let (w', rs) := two t w o o ea eb true in (w', rs ++ [Loaded m])
+      | inl x =>
+          if transfer_recompiles t x then
+            let (_, rs) := two t (partial_write w o j) o o ea eb true in
+            (full_write w o, rs ++ [Recompiled (src w, o)])
+          else let (w', rs) := two t w o o ea eb true in (w', rs ++ [Raised x])
       end
   end.
 
